@@ -11,7 +11,11 @@ PROP = {
             "the first and the last 600 indices) four faulty writers ({fail once, fail from k on} x "
             "{accept nothing, accept a strict prefix}; thorough adds short writes without error) are run on the real code through FRender and "
             "ParseAndFRender: flagged are a panic, a nil error, a non-SourceError, a Cause() that is not the writer's error, any Write call after "
-            "the failing one, accepted bytes that are not a prefix of the fault-free output; non-trivial = at least one write call",
+            "the failing one, accepted bytes that are not a prefix of the fault-free output; for every explored call index the LOCATION of the "
+            "returned error (LineNumber, and whether Path is empty) of the run that fails once accepting nothing is part of the result line "
+            "(field flocs) and compared with the error the model's interaction tree ends with when that call fails (driver Prog.faultErrs); "
+            "the other three plans must report the same location (counted as fault-loc-differs-between-plans otherwise); "
+            "non-trivial = at least one write call",
     "trusted_base": COMMON_TB + ["the fault-injecting writer and the recording writer of the harness"],
     "assumptions": ["the writer returns 0 <= n <= len(p); a writer that reports n > len(p) is outside the property"],
 }
@@ -24,8 +28,22 @@ TEXT = {
               'failing at its k-th call (accepting any part) makes FRender return an error whose cause is that failure - not '
               'success, not a panic - after exactly k+1 calls; frender_faulty_prefix: the bytes accepted are a prefix of the '
               "fault-free output; capture bodies and included files never reach the caller's writer (capture_infallible, "
-              'renderFileWith_noCalls). The theorems say the cause is the writer\'s failure (IsIo, which also admits an unlocated '
-              'error): that the error is a located SourceError is checked by the faults stream only. A panic that does not come '
+              "renderFileWith_noCalls). The error VALUE (Proofs.C20Located): frender_faulty_located - for every compiled template, environment, "
+              "configuration, file system, include depth, every k below the number of Write calls of the fault-free render and every accepted "
+              "length, FRender on the writer failing at call k returns exactly the located error (line l.line, path flag l.pathSet, cause = the "
+              "writer's error, message = the cause's text) where l = faultSites[k], and faultSites has one entry per call (faultSites_length); "
+              "faultSites is computed from the compiled tree by walking it in render order with the renderer's state (traceRoot, "
+              "Proofs/RenderTrace.lean, proved against the interaction tree by induction over the node tree: sp_renderNode, sp_frender): a "
+              "write issued while a text, object, cycle or include node runs is located at that node (faultSite_text, faultSite_obj), the "
+              "cell tags of a tablerow at the tablerow tag, a raw block, a left trim marker and the flush of a block body or of the whole "
+              "render at the invalid location (line 0, no path: faultSite_raw, faultSite_trim), and every enclosing block passes the site "
+              "through relocate = parser.WrapError on locations (faultSite_if): a site with a line or a path is kept (relocate_located), the "
+              "invalid location is replaced by the block tag's (relocate_invalid). Hence, in a template that has a path or no node at line 0, "
+              "every site is the line of a node of the tree with the template's path, or the invalid location (fault_site_in_tree); below a "
+              "node that has a location every site is a line of that node (located_node_fault_sites), and the sites of the render are those "
+              "of its top-level nodes in order, then the final flush (fault_sites_of_sequence, fault_sites_of_root): line 0 without a path "
+              "arises exactly for a write issued by a top-level raw block, a top-level left trim marker or the final flush. The list the "
+              "stream compares with the real code is this list (faultErrs_are_faultSites). A panic that does not come "
               "from the writer's failure is C01's business, not proved here. From source bytes "
               '(Proofs.C20Source): for every source that compiles the same three facts hold of FRender on the compiled template '
               '(source_faulty_prefix), and whenever run returns the output out, what a writer failing at any call k accepted is a prefix of '
@@ -36,9 +54,13 @@ TEXT = {
     "design_ref": 'DESIGN.md 6 C20',
     "note": NOTE + ('A writer that reports a short write without an error is outside the property and the model. '
               '"Never a panic" is proved as: an error for every k below the number of fault-free calls (frender_faulty); other '
-              "panics are C01's. That the returned error is a located SourceError rests on the faults stream "
-              '(clause not-a-source-error), not on a theorem. The stream explores at most 1200 call indices per run (first and '
+              "panics are C01's. The located-error theorems are about the model; that the real FRender reports the same line and path flag is "
+              'the comparison of the flocs field on every case, not a theorem about the Go code. In a template WITHOUT a path a node at line 0 '
+              '(start line 0) carries no more information than the invalid location and is re-located by the enclosing block like it: '
+              'fault_site_in_tree and located_node_fault_sites assume a path or no node at line 0, frender_faulty_located does not. Trial of the tie: with '
+              'TextNode.render changed to wrap the writer\'s error at invalidLoc instead of at the node (every clause of the oracle still holds) '
+              '110 of the 650 quick cases disagree with the model in the flocs field. The stream explores at most 1200 call indices per run (first and '
               'last 600) and runs templates with the engine-registered custom tags through the oracle only.'),
-    "technique": ('Lean 4 proof (inductive Stops predicate on interaction trees, by induction over the render tree) + '
-              'model/implementation correspondence of Write-call sequences + fault injection at every call index (first and last 600 beyond 1200 calls) on the implementation'),
+    "technique": ('Lean 4 proof (inductive Stops predicate on interaction trees and a location trace of the node tree, both by induction over the render tree) + '
+              'model/implementation correspondence of Write-call sequences and of the location of every single-fault error + fault injection at every call index (first and last 600 beyond 1200 calls) on the implementation'),
 }
